@@ -1,2 +1,438 @@
-"""lck rules."""
-RULES = {}
+"""LCK - build lock, description predicate, build-state discipline (DESIGN 4.5)."""
+from __future__ import annotations
+
+import ast
+from typing import Dict, List, Optional, Set, Tuple
+
+from ..ctx import Ctx, dotted, names_in, parents_map
+from ..loader import FuncInfo, ModInfo, iter_own_nodes, own_walk
+from ..report import RuleResult, Undecided, norm_src
+from .ref import pkg_funcs
+
+
+class BuildState:
+    """The module that holds the build lock, the lock, the mutable build state and the description predicate."""
+
+    def __init__(self, ctx: Ctx):
+        self.ctx = ctx
+        locks = []
+        for m in ctx.P.modules.values():
+            for name, st in m.globals_.items():
+                v = st.value if isinstance(st, (ast.Assign, ast.AnnAssign)) else None
+                if isinstance(v, ast.Call) and (dotted(v.func) or "").split(".")[-1] in ("Lock", "RLock"):
+                    locks.append((m, name))
+        if len(locks) != 1:
+            raise Undecided(f"build lock: expected one module-level Lock, found {[(m.name, n) for m, n in locks]}")
+        self.mod, self.lock = locks[0]
+        self.lock_q = f"{self.mod.name}.{self.lock}"
+        # state: module-level names of that module that are re-bound from functions anywhere, or mutated
+        cand = [n for n in self.mod.globals_ if n != self.lock]
+        state: Set[str] = set()
+        for f in ctx.funcs():
+            for n in iter_own_nodes(f.node):
+                if isinstance(n, ast.Assign):
+                    for t in n.targets:
+                        q = self.resolve(f, t)
+                        if q is not None and q[1] in cand:
+                            state.add(q[1])
+                if isinstance(n, ast.Global) and f.module is self.mod:
+                    state.update(x for x in n.names if x in cand)
+        # module-level containers mutated through methods / item writes
+        for f in ctx.funcs():
+            for n in iter_own_nodes(f.node):
+                tgt = None
+                if isinstance(n, ast.Assign) and isinstance(n.targets[0], ast.Subscript):
+                    tgt = n.targets[0].value
+                elif isinstance(n, ast.Call) and isinstance(n.func, ast.Attribute) and n.func.attr in ("append", "pop", "update", "clear", "force_set"):
+                    tgt = n.func.value
+                if tgt is not None:
+                    q = self.resolve(f, tgt)
+                    if q is not None and q[1] in cand:
+                        v = self.mod.globals_[q[1]]
+                        if isinstance(v, (ast.Assign, ast.AnnAssign)) and not isinstance(v.value, ast.Constant):
+                            state.add(q[1])
+        self.state = sorted(state)
+        if len(self.state) < 3:
+            raise Undecided(f"build state: expected the node table, the constants and the prefix stack, found {self.state}")
+        # predicate functions: module-level functions of that module returning a bool built from the lock or the owner
+        self.predicates: List[FuncInfo] = []
+        for f in self.mod.funcs.values():
+            if not f.node.args.args and ctx.T.ann(self.mod, f.node.returns) == ("bool",):
+                src_names = names_in(f.node)
+                if self.lock in src_names or any(s in src_names for s in self.state):
+                    self.predicates.append(f)
+
+    def resolve(self, f: FuncInfo, e: ast.AST) -> Optional[Tuple[str, str]]:
+        """(module, name) if e denotes a module-level name of the lock's module."""
+        ctx = self.ctx
+        if isinstance(e, ast.Name):
+            if f.module is self.mod and e.id in self.mod.globals_:
+                # shadowed by a parameter / local?
+                for g in ctx.P.enclosing_chain(f):
+                    a = g.node.args
+                    if e.id in [p.arg for p in a.posonlyargs + a.args + a.kwonlyargs]:
+                        return None
+                    glob = any(isinstance(n, ast.Global) and e.id in n.names for n in iter_own_nodes(g.node))
+                    local = any(isinstance(n, (ast.Assign, ast.AnnAssign)) and any(
+                        isinstance(t, ast.Name) and t.id == e.id for t in (n.targets if isinstance(n, ast.Assign) else [n.target]))
+                        for n in iter_own_nodes(g.node))
+                    if local and not glob:
+                        return None
+                return (self.mod.name, e.id)
+            q = ctx.P.resolve_name(f.module, e.id)
+            if q and q.rsplit(".", 1)[0] == self.mod.name and q.rsplit(".", 1)[1] in self.mod.globals_ and f.module is not self.mod:
+                return (self.mod.name, q.rsplit(".", 1)[1])
+            return None
+        if isinstance(e, ast.Attribute):
+            bt = ctx.type_of(f, e.value)
+            if bt[0] == "module" and bt[1] == self.mod.name and e.attr in self.mod.globals_:
+                return (self.mod.name, e.attr)
+        return None
+
+    # ------------------------------------------------------------------ protection
+    def lock_regions(self, f: FuncInfo) -> List[ast.With]:
+        out = []
+        for n in iter_own_nodes(f.node):
+            if isinstance(n, (ast.With, ast.AsyncWith)):
+                for it in n.items:
+                    r = self.resolve(f, it.context_expr)
+                    if r is not None and r[1] == self.lock:
+                        out.append(n)
+        return out
+
+    def is_pred_call(self, f: FuncInfo, e: ast.AST) -> bool:
+        if isinstance(e, ast.Call):
+            q = self.ctx.T.resolve_callee(f, e)
+            return any(q == p.qualname for p in self.predicates)
+        return False
+
+    def guarded(self, f: FuncInfo, node: ast.AST) -> Optional[str]:
+        """How the position of ``node`` in f is protected: 'lock', 'predicate', or None."""
+        for w in self.lock_regions(f):
+            if any(node is x for s in w.body for x in ast.walk(s)):
+                return "lock"
+        # description guard: inside `if <pred>` / after `if not <pred>: return|raise`
+        pred_vars = set()
+        for n in iter_own_nodes(f.node):
+            if isinstance(n, ast.Assign) and isinstance(n.targets[0], ast.Name) and self.is_pred_call(f, n.value):
+                pred_vars.add(n.targets[0].id)
+
+        def is_pred(e: ast.AST) -> bool:
+            return self.is_pred_call(f, e) or (isinstance(e, ast.Name) and e.id in pred_vars)
+
+        def is_not_pred(e: ast.AST) -> bool:
+            return isinstance(e, ast.UnaryOp) and isinstance(e.op, ast.Not) and is_pred(e.operand)
+
+        def search(stmts: List[ast.stmt], prot: bool) -> Optional[bool]:
+            for s in stmts:
+                if s is node or any(node is x for x in ast.walk(s)):
+                    if isinstance(s, ast.If):
+                        if any(node is x for x in ast.walk(s.test)):
+                            return prot
+                        inb = any(node is x for b in s.body for x in ast.walk(b))
+                        if inb:
+                            return search(s.body, prot or is_pred(s.test))
+                        return search(s.orelse, prot or is_not_pred(s.test))
+                    for field in ("body", "orelse", "finalbody"):
+                        sub = getattr(s, field, None)
+                        if isinstance(sub, list) and any(node is x for b in sub for x in ast.walk(b) if isinstance(b, ast.AST)):
+                            return search(sub, prot)
+                    if isinstance(s, ast.Try):
+                        for h in s.handlers:
+                            if any(node is x for b in h.body for x in ast.walk(b)):
+                                return search(h.body, prot)
+                    return prot
+                if isinstance(s, ast.If) and is_not_pred(s.test) and s.body and isinstance(s.body[-1], (ast.Return, ast.Raise)) and not s.orelse:
+                    prot = True
+            return None
+
+        res = search(f.node.body, False)
+        if res:
+            return "predicate"
+        return None
+
+
+def bs(ctx: Ctx) -> BuildState:
+    return ctx.memo("build_state", lambda: BuildState(ctx))
+
+
+# ---------------------------------------------------------------------------------------------- LCK-SET
+def _accesses(ctx: Ctx, b: BuildState):
+    for f in pkg_funcs(ctx):
+        for n in iter_own_nodes(f.node):
+            if isinstance(n, (ast.Name, ast.Attribute)):
+                if isinstance(n, ast.Attribute) and isinstance(getattr(n, "ctx", None), ast.Load) is False and not isinstance(n.ctx, (ast.Store, ast.Del)):
+                    continue
+                r = b.resolve(f, n)
+                if r is not None and r[1] in b.state:
+                    yield f, n, r[1]
+
+
+def _protected(ctx: Ctx, b: BuildState, f: FuncInfo, node: ast.AST, depth: int, seen: Set[str]) -> Tuple[bool, str]:
+    how = b.guarded(f, node)
+    if how:
+        return True, how
+    if f in b.predicates:
+        return True, "predicate itself (read of the owner identity)"
+    if depth > 5 or f.qualname in seen:
+        return False, "recursion"
+    callers = ctx.callers_of(f.qualname)
+    # nested functions are called where they are defined
+    # methods reached through properties / dataclass construction
+    if f.name in ("__post_init__", "__init__") and f.cls is not None:
+        for c in ctx.P.subclasses(f.cls.qualname):
+            callers = callers + ctx.callers_of(c.qualname)
+    if f.cls is not None and "property" in f.decorators():
+        for g in pkg_funcs(ctx):
+            for n in iter_own_nodes(g.node):
+                if isinstance(n, ast.Attribute) and n.attr == f.name and ctx.T.is_instance(ctx.type_of(g, n.value), f.cls.qualname):
+                    callers.append((g, n))
+    callers = [(g, c) for g, c in callers if not g.module.name.endswith("_twzsa_control")]
+    if not callers:
+        return False, f"{f.short} has no caller inside the package (public entry point)"
+    for g, c in callers:
+        ok, why = _protected(ctx, b, g, c, depth + 1, seen | {f.qualname})
+        if not ok:
+            return False, f"called unprotected from {g.short} ({why})"
+    return True, "all callers protected"
+
+
+def lck_set(ctx: Ctx) -> RuleResult:
+    r = RuleResult("LCK-SET")
+    b = bs(ctx)
+    n = 0
+    reported = set()
+    for f, node, name in _accesses(ctx, b):
+        n += 1
+        ok, why = _protected(ctx, b, f, node, 0, set())
+        r.ob(ok, {"access": f"{name} in {f.short}", "at": f.loc(node), "protection": why})
+        if not ok and (f.qualname, name) not in reported:
+            reported.add((f.qualname, name))
+            r.violate(f"{f.short}: build state '{name}' accessed outside the build lock and outside a description guard", f.loc(node),
+                      "the node table / constants / prefix of the DAG being described may be touched only by the describing thread: "
+                      + why, norm_src(node))
+    r.require(n >= 15, f"only {n} accesses to build state found (confirmed by hand: about 25)")
+    r.note = f"lock {b.lock_q}; state {b.state}; predicates {[p.short for p in b.predicates]}"
+    return r
+
+
+# ---------------------------------------------------------------------------------------------- LCK-PRED
+def lck_pred(ctx: Ctx) -> RuleResult:
+    r = RuleResult("LCK-PRED")
+    b = bs(ctx)
+    # every use of Lock.locked() as a predicate is a violation
+    n_locked = 0
+    for f in pkg_funcs(ctx):
+        for n in iter_own_nodes(f.node):
+            if isinstance(n, ast.Call) and isinstance(n.func, ast.Attribute) and n.func.attr == "locked":
+                rr = b.resolve(f, n.func.value)
+                if rr is not None and rr[1] == b.lock:
+                    n_locked += 1
+                    alone = True
+                    if f in b.predicates:
+                        # allowed only in conjunction with an owner-identity comparison
+                        rets = [x for x in iter_own_nodes(f.node) if isinstance(x, ast.Return)]
+                        alone = not any(isinstance(c, ast.Compare) and _is_thread_identity(c) for x in rets for c in ast.walk(x))
+                    r.ob(not alone, {"locked() read in": f.short})
+                    if alone:
+                        r.violate(f"{f.short}: Lock.locked() used as 'am I describing a DAG?'", f.loc(n),
+                                  "locked() is true in EVERY thread while ANY thread holds the build lock: a DAG call or a decorated "
+                                  "function call in another thread is taken for part of the description in progress", norm_src(n))
+    r.require(bool(b.predicates) or n_locked, "no description predicate found")
+    for p in b.predicates:
+        rets = [x for x in iter_own_nodes(p.node) if isinstance(x, ast.Return)]
+        r.require(len(rets) == 1, f"{p.short}: predicate body not a single return")
+        cmps = [c for c in ast.walk(rets[0]) if isinstance(c, ast.Compare)]
+        idc = [c for c in cmps if _is_thread_identity(c)]
+        if not idc:
+            weak = [c for c in cmps if _mentions_thread_attr(c)]
+            if weak:
+                r.ob(False)
+                r.violate(f"{p.short}: the describing thread is identified by a non-unique key: {norm_src(weak[0])}", p.loc(rets[0]),
+                          "thread names (and similar attributes) are not unique among live threads: two threads with the same name "
+                          "are both taken for the describing thread", norm_src(weak[0]))
+                continue
+            if any(isinstance(c, ast.Call) and isinstance(c.func, ast.Attribute) and c.func.attr == "locked" for c in ast.walk(rets[0])):
+                continue  # reported above
+            raise Undecided(f"{p.short}: predicate form not recognised: {norm_src(rets[0])}")
+        c = idc[0]
+        owner_side = c.left if not isinstance(c.left, ast.Call) else c.comparators[0]
+        ow = b.resolve(p, owner_side)
+        r.ob(ow is not None, {"predicate": norm_src(rets[0].value), "owner variable": ow[1] if ow else None})
+        if ow is None:
+            raise Undecided(f"{p.short}: owner side of the comparison is not a module-level name")
+        owner = ow[1]
+        # owner is written only inside the locked region, with the current thread's identity / a reset
+        writes = []
+        for f in pkg_funcs(ctx):
+            for n in iter_own_nodes(f.node):
+                if isinstance(n, ast.Assign):
+                    for t in n.targets:
+                        rr = b.resolve(f, t)
+                        if rr is not None and rr[1] == owner:
+                            writes.append((f, n))
+        r.require(len(writes) >= 2, f"writes of the owner identity '{owner}' not found")
+        for f, n in writes:
+            inside = b.guarded(f, n) == "lock"
+            v = n.value
+            okv = _is_thread_identity_expr(v) or (isinstance(v, ast.Constant) and v.value is None)
+            r.ob(inside and okv, {"owner write": norm_src(n), "in": f.short, "inside the locked region": inside})
+            if not inside:
+                r.violate(f"{f.short}: owner identity written outside the locked region: {norm_src(n)}", f.loc(n),
+                          "a thread that is merely queueing for the build lock overwrites (and later clears) the identity of the "
+                          "thread that is describing: the describing thread's next call is taken for a call outside any DAG",
+                          norm_src(n))
+            elif not okv:
+                if _mentions_thread_attr(v):
+                    r.violate(f"{f.short}: owner identity is a non-unique thread attribute: {norm_src(v)}", f.loc(n),
+                              "thread names are not unique among live threads", norm_src(n))
+                else:
+                    raise Undecided(f"owner identity value not recognised: {norm_src(v)}")
+        # set first, reset on every exit
+        for f in {f.qualname: f for f, _ in writes}.values():
+            for w in b.lock_regions(f):
+                body = w.body
+                first = body[0] if body else None
+                ok1 = isinstance(first, ast.Assign) and _is_thread_identity_expr(first.value)
+                tr = next((s for s in body if isinstance(s, ast.Try)), None)
+                ok2 = tr is not None and any(isinstance(s, ast.Assign) and isinstance(s.value, ast.Constant) and s.value.value is None
+                                             for s in tr.finalbody)
+                r.ob(ok1 and ok2, {"owner set first in the locked region": ok1, "reset in finally": ok2})
+                if writes and any(g is f for g, _ in writes) and any(b.guarded(f, n) == "lock" for g, n in writes if g is f):
+                    if not ok2:
+                        r.violate(f"{f.short}: owner identity not reset on every exit of the locked region", f.loc(w),
+                                  "after a failed description the thread keeps being taken for a describing thread", None)
+    return r
+
+
+def _is_thread_identity_expr(e: ast.AST) -> bool:
+    if isinstance(e, ast.Call):
+        d = dotted(e.func) or ""
+        if d.split(".")[-1] in ("get_ident", "get_native_id", "current_thread", "currentThread"):
+            return True
+    if isinstance(e, ast.Attribute) and e.attr in ("ident", "native_id") and isinstance(e.value, ast.Call) \
+            and (dotted(e.value.func) or "").split(".")[-1] in ("current_thread", "currentThread"):
+        return True
+    return False
+
+
+def _is_thread_identity(c: ast.Compare) -> bool:
+    if len(c.ops) != 1 or not isinstance(c.ops[0], (ast.Eq, ast.Is)):
+        return False
+    return _is_thread_identity_expr(c.left) or _is_thread_identity_expr(c.comparators[0])
+
+
+def _mentions_thread_attr(e: ast.AST) -> bool:
+    for x in ast.walk(e):
+        if isinstance(x, ast.Attribute) and x.attr in ("name", "getName", "daemon") and isinstance(x.value, ast.Call) \
+                and (dotted(x.value.func) or "").split(".")[-1] in ("current_thread", "currentThread"):
+            return True
+        if isinstance(x, ast.Call) and (dotted(x.func) or "").split(".")[-1] in ("getpid",):
+            return True
+    return False
+
+
+# ---------------------------------------------------------------------------------------------- LCK-RESET
+def lck_reset(ctx: Ctx) -> RuleResult:
+    r = RuleResult("LCK-RESET")
+    b = bs(ctx)
+    containers = [s for s in b.state if not (isinstance(b.mod.globals_[s], (ast.Assign, ast.AnnAssign)) and
+                                             isinstance(b.mod.globals_[s].value, ast.Constant))]
+    # the function that runs the description: contains a try/finally that re-binds every container
+    resetters = []
+    for f in pkg_funcs(ctx):
+        for n in iter_own_nodes(f.node):
+            if isinstance(n, ast.Try) and n.finalbody:
+                reset = {b.resolve(f, t)[1] for s in n.finalbody if isinstance(s, ast.Assign) for t in s.targets if b.resolve(f, t)}
+                if reset & set(containers):
+                    resetters.append((f, n, reset))
+    r.require(len(resetters) >= 1, "reset of the build state in a finally block not found")
+    f, tr, reset = resetters[0]
+    miss = sorted(set(containers) - reset)
+    r.ob(not miss, {"reset in finally": sorted(reset), "in": f.short})
+    if miss:
+        r.violate(f"{f.short}: build state {miss} not reset after the description", f.loc(tr),
+                  "nodes / constants / prefix of this description leak into the next DAG that is built", sorted(reset))
+    # also reset before the description
+    before = set()
+    for s in f.node.body:
+        if s is tr:
+            break
+        if isinstance(s, ast.Assign):
+            for t in s.targets:
+                rr = b.resolve(f, t)
+                if rr:
+                    before.add(rr[1])
+    miss2 = sorted(set(containers) - before)
+    r.ob(not miss2, {"reset before the description": sorted(before)})
+    if miss2:
+        r.violate(f"{f.short}: build state {miss2} not cleared before the description", f.loc(), "", sorted(before))
+    # the resetter runs under the lock
+    ok, why = _protected(ctx, b, f, tr, 0, set())
+    r.ob(ok, {"runs under the build lock": why})
+    if not ok:
+        r.violate(f"{f.short}: build state reset outside the build lock", f.loc(tr), why, None)
+    return r
+
+
+# ---------------------------------------------------------------------------------------------- LCK-PAIR
+def lck_pair(ctx: Ctx) -> RuleResult:
+    """The prefix pushed by the splice is popped on every normal exit after the push."""
+    r = RuleResult("LCK-PAIR")
+    from ..splice import SpliceInterp
+
+    sp = ctx.memo("splice_interp", lambda: SpliceInterp(ctx))
+    f = sp.fn
+    body = sp.block.body
+    push_i = None
+    for i, s in enumerate(body):
+        if any(isinstance(x, ast.Call) and isinstance(x.func, ast.Attribute) and x.func.attr == "append"
+               and (dotted(x.func.value) or "").endswith("DAG_PREFIX") for x in ast.walk(s)):
+            push_i = i
+            break
+    r.require(push_i is not None, "push not found at the top level of the splice block")
+
+    def pops(stmts) -> bool:
+        return any(isinstance(x, ast.Call) and isinstance(x.func, ast.Attribute) and x.func.attr == "pop"
+                   and (dotted(x.func.value) or "").endswith("DAG_PREFIX") for s in stmts for x in ast.walk(s))
+
+    n_ret = 0
+
+    def scan(stmts, covered: bool):
+        nonlocal n_ret
+        for s in stmts:
+            if isinstance(s, ast.Return):
+                n_ret += 1
+                r.ob(covered, {"return": norm_src(s)[:70], "prefix popped on this exit": covered})
+                if not covered:
+                    r.violate(f"{f.short} splice: return without popping the id prefix: {norm_src(s)[:60]}", f.loc(s),
+                              "the sub-DAG's name stays on the prefix stack for the rest of the outer description: the nodes of the "
+                              "next sub-DAG are registered inside this one's namespace (wrong ids, collisions)", norm_src(s))
+            elif isinstance(s, ast.Try):
+                c = covered or pops(s.finalbody)
+                scan(s.body, c)
+                for h in s.handlers:
+                    scan(h.body, c)
+                scan(s.orelse, c)
+                scan(s.finalbody, covered)
+            elif isinstance(s, ast.If):
+                scan(s.body, covered)
+                scan(s.orelse, covered)
+            elif isinstance(s, (ast.For, ast.While, ast.With)):
+                scan(s.body, covered)
+            elif isinstance(s, (ast.FunctionDef, ast.AsyncFunctionDef)):
+                continue
+
+    scan(body[push_i + 1:], False)
+    r.require(n_ret >= 3, f"only {n_ret} returns after the push")
+    # fall-through end of the block
+    last = body[-1]
+    falls = not isinstance(last, (ast.Return, ast.Raise)) and not (isinstance(last, ast.Try) and all(
+        isinstance(x, (ast.Return, ast.Raise)) for x in [last.body[-1]]))
+    if falls:
+        ok = pops(body[push_i + 1:])
+        r.ob(ok, {"fall-through exit pops": ok})
+    return r
+
+
+RULES = {"LCK-SET": lck_set, "LCK-PRED": lck_pred, "LCK-RESET": lck_reset, "LCK-PAIR": lck_pair}
